@@ -72,7 +72,7 @@ DEF_FUNCS = {
 }
 
 
-NOT_YET = {"list": ("_update",)}     # SyncedList._update: invariant not written yet (bounded stand-in, see C02 evidence)
+NOT_YET = {}     # (kind -> function names whose definition obligations are not generated; none at present)
 
 
 def run_task(eng, prover, task, out):
